@@ -731,7 +731,9 @@ func (sh *shared) runPath(sol *solver, pre []decision, pathNo int) (alts [][]dec
 					i.inconclusive("engine: " + msg)
 					if sh.cfg.Verbose {
 						fmt.Fprintln(os.Stderr, "ENGINE PANIC", msg, "stack:", strings.Join(tail(i.abortStack, 6), " > "))
-						os.Stderr.Write(debug.Stack())
+						if os.Getenv("GOSYM_DEBUG") != "" {
+							os.Stderr.Write(debug.Stack())
+						}
 					}
 				}
 			}
